@@ -168,6 +168,8 @@ class PmfPredict(Contract):
             return Abstract("weight_labels")
         if base is self.w and attr == "iloc":
             return Abstract("weights_iloc")
+        if base is self.w and attr in ("loc", "at"):
+            return Abstract("weights_loc")
         return NotImplemented
 
     def on_subscript(self, eng, st, node, base, index):
@@ -175,6 +177,8 @@ class PmfPredict(Contract):
             return WL(index)
         if isinstance(base, Abstract) and base.tag == "weights_iloc" and is_z3(index):
             return WP(index)
+        if isinstance(base, Abstract) and base.tag == "weights_loc" and is_z3(index):
+            return WL(index)
         if base is self.hs and is_z3(index):
             return Abstract("predictor", t=index)
         if isinstance(base, Abstract) and base.tag == "value_frame" and isinstance(index, Abstract) and index.tag == "weight_labels":
